@@ -6,6 +6,7 @@ import (
 	"encoding/json"
 	"fmt"
 	"net"
+	"sort"
 	"strings"
 	"time"
 
@@ -76,6 +77,8 @@ type c04spec struct {
 	cred      int
 	victimTid bool
 	fault     int           // 0 = none, else fail the k-th store op after the request is sent
+	wfault    int           // 0 = none, else fail the k-th store WRITE after the request is sent
+	overlap   bool          // a change of the mapping's state is in flight while this request is: neither outcome is required
 	stall     time.Duration // 0 = none, else the stallK-th store op after the request is sent takes this long (simulated)
 	stallK    int
 	law       simnet.Law
@@ -118,6 +121,13 @@ type c04run struct {
 	tasks  []*simrt.Task
 	hist   []string
 	faulty bool
+	// raceKind is non-empty when a writer of M's record may have been in flight while M's state was changed:
+	// "slow-store" (a store operation of an earlier legitimate open was stalled), "interleaving" (the change was
+	// issued while a legitimate open was being processed, fault-free), "write-error" (same, and that open's write
+	// of M's record failed). It is part of the class of every mapping-state reason of the run.
+	raceKind string
+	ctl      [3]*simnode.Client // the clients' control connections (they receive the server's TunnelOpenRequest commands)
+	sent     map[string]bool    // "tunnel id|mapping id" of every TunnelOpen the server acknowledged with success
 	// storage stall: the store operation number stallAt takes stallDur of simulated time
 	stallAt    int
 	stallDur   time.Duration
@@ -132,7 +142,9 @@ func init() {
 		Rule: "each run wires one real server node, registers clients L, T, S through the real handshake, creates the victim mapping M (L->T; with a non-empty secret, or through the connection-code path with an empty secret) and S's own mapping M2, " +
 			"then draws one tunnel state at arrival {no tunnel, bridge waiting locally, bridge served by the legitimate L/T pair streaming position-stamped bytes, tunnel id squatted by S under M2, waiting record of another node, expired waiting record, local waiting record without bridge}, " +
 			"one state of M {active, revoked, expired by clock, inactive, deleted} and 1-2 probe TunnelOpen requests over fresh connections: identity {L,T,S,U(no handshake / challenge pending / failed response)} x credential {id only, id+right secret, id+wrong secret, secret without id, other mapping's id, other mapping's id+secret, other id+M's secret, unknown id, resume-token garbage, nothing} x tunnel id {victim's, fresh} x handshake type {tunnel, control}, " +
-			"optionally with a store failure or a store stall (one storage operation taking 1-25 s of simulated time) injected during validation, racing the legitimate target's open, or as a burst: 2-3 probes plus one more legitimate listener open, each for its own fresh tunnel id, whose TunnelOpen requests are in flight at the same time and interleave at every storage operation and statement of the validation path. Each request is judged by an entitlement function written from the property text. " +
+			"optionally with a store failure or a store stall (one storage operation taking 1-25 s of simulated time) injected during validation, racing the legitimate target's open, or as a burst: 2-3 probes plus one more legitimate listener open, each for its own fresh tunnel id, whose TunnelOpen requests are in flight at the same time and interleave at every storage operation and statement of the validation path. " +
+			"In a third of the runs with a changed mapping the change is not applied between requests but while one more legitimate open of M is being processed (fault-free interleaving, or with that open's write of M's record failing, or behind a stalled store operation), followed by a canary open once both are over; the legitimate source open of phase 1 may also run behind a stalled store operation so that its background work overlaps the next requests. " +
+			"At the end every TunnelOpenRequest command the server sent on the clients' control connections is checked: addressee is the target of the named mapping, the named tunnel was granted for that mapping, the secret is that mapping's. Each request is judged by an entitlement function written from the property text. " +
 			"Non-trivial: at least one TunnelOpen that the text does NOT entitle was delivered to the real dispatcher and its outcome (ack / close / silence, bridge membership, bytes readable) observed; distinct = distinct (identity, credential, mapping state, tunnel state) cells and schedule hashes.",
 		Real: []string{"internal/protocol/session SessionManager.handleTunnelOpen / handleExistingBridge / handleSourceBridge / handleTargetBridge / handleCrossNodeTargetConnection / startSourceBridge / runBridgeLifecycle, handshake path, BaseAdapter read loop",
 			"internal/protocol/session/tunnel Bridge (SetSource/SetTargetConnection, Start, copy loops), RoutingTable", "internal/app/server ServerTunnelHandler, ServerAuthHandler", "internal/cloud/services conncode Service (ValidateMapping, RevokeMapping, ActivateConnectionCode), PortMappingService, repos on the memory storage backend",
@@ -162,7 +174,7 @@ func (r *c04run) history() string { return strings.Join(r.hist, "\n") }
 
 func c04Run(w *simrt.World, tier string) {
 	c := w.C
-	r := &c04run{w: w, maps: map[string]*c04map{}, tidV: "tcp-tunnel-1700000000000-7788"}
+	r := &c04run{w: w, maps: map[string]*c04map{}, sent: map[string]bool{}, tidV: "tcp-tunnel-1700000000000-7788"}
 
 	// ---- swarm configuration (all draws before any task exists) ----------
 	codePath := c.Chance(1, 4, "M.via-connection-code")
@@ -181,6 +193,36 @@ func c04Run(w *simrt.World, tier string) {
 		nprobe = 2 + c.Intn(2, "burst.nprobe")
 	}
 	burstSameID := c.Chance(1, 2, "burst.id-only")
+	// late change: the change of M's state is not applied between requests but while a legitimate open of M is
+	// in flight (optionally with one of that open's storage writes failing); a canary open follows once both are over
+	lateChange := mstate != 0 && c.Chance(1, 3, "mapping.change-races-open")
+	lateDelay := []time.Duration{0, 30 * time.Millisecond, 130 * time.Millisecond, 260 * time.Millisecond, 5 * time.Millisecond}[c.Intn(5, "late.delay")]
+	lateHow := []string{"interleaving", "write-error", "slow-store"}[c.Intn(3, "late.how")]
+	lateCred := c.Intn(2, "late.cred") // raced open and canary: id only | id + right secret
+	lateStall := []time.Duration{300 * time.Millisecond, time.Second}[c.Intn(2, "late.stall.d")]
+	lateStallK := 1 + c.Intn(12, "late.stall.k")
+	// the store may also be slow while the legitimate tunnel of phase 1 is being set up (so that whatever that open
+	// leaves running in the background is still running when the next requests arrive)
+	var srcStall time.Duration
+	srcStallK := 0
+	if c.Chance(1, 4, "source.stall") {
+		srcStall = []time.Duration{2 * time.Second, 500 * time.Millisecond, 6 * time.Second}[c.Intn(3, "source.stall.d")]
+		srcStallK = 1 + c.Intn(12, "source.stall.k")
+	}
+	if lateChange && c04mstateName[mstate] == "expired" {
+		mstate = 1 // expiry is a matter of the clock, not of a racing writer: race a revocation instead
+	}
+	// the three kinds of race are kept apart (one per run), so that each has its own class
+	if lateChange && lateHow != "slow-store" {
+		srcStall, srcStallK = 0, 0
+	}
+	switch {
+	case mstate == 0:
+	case lateChange:
+		r.raceKind = lateHow
+	case srcStall > 0:
+		r.raceKind = "slow-store"
+	}
 	var specs []c04spec
 	for i := 0; i < nprobe; i++ {
 		sp := c04spec{}
@@ -193,7 +235,7 @@ func c04Run(w *simrt.World, tier string) {
 			sp.fault = 1 + c.Intn(6, "probe.fault.k")
 		} else if c.Chance(1, 5, "probe.stall") {
 			sp.stall = []time.Duration{4 * time.Second, time.Second, 9 * time.Second, 25 * time.Second}[c.Intn(4, "probe.stall.d")]
-			sp.stallK = 1 + c.Intn(6, "probe.stall.k")
+			sp.stallK = 1 + c.Intn(12, "probe.stall.k")
 		}
 		sp.law = []simnet.Law{simnet.LawAll, simnet.LawMixed, simnet.LawSmall}[c.Intn(3, "probe.law")]
 		if burst {
@@ -253,6 +295,7 @@ func c04Run(w *simrt.World, tier string) {
 			return
 		}
 		r.ids[i], r.sec[i] = cl.ID, cl.Secret
+		r.ctl[i] = cl
 	}
 
 	// ---- mappings ----------------------------------------------------------------
@@ -290,7 +333,7 @@ func c04Run(w *simrt.World, tier string) {
 	ts := c04tstateName[tstate]
 	switch ts {
 	case "waiting", "served":
-		src := r.open(c04spec{ident: c04L, ctype: "tunnel", cred: 0, victimTid: true}, "Lsrc", true)
+		src := r.open(c04spec{ident: c04L, ctype: "tunnel", cred: 0, victimTid: true, stall: srcStall, stallK: srcStallK}, "Lsrc", true)
 		if src == nil || !src.ackOK {
 			return // open() has already judged it
 		}
@@ -304,7 +347,7 @@ func c04Run(w *simrt.World, tier string) {
 		}
 	case "squatted":
 		// S legitimately opens a tunnel of its own mapping under the victim's predictable tunnel id
-		sq := r.open(c04spec{ident: c04S, ctype: "tunnel", cred: 4, victimTid: true}, "Ssquat", false)
+		sq := r.open(c04spec{ident: c04S, ctype: "tunnel", cred: 4, victimTid: true, stall: srcStall, stallK: srcStallK}, "Ssquat", false)
 		if sq == nil || !sq.ackOK {
 			return
 		}
@@ -328,39 +371,74 @@ func c04Run(w *simrt.World, tier string) {
 	}
 
 	// ---- phase 2: state of the victim mapping ----------------------------------
-	switch c04mstateName[mstate] {
-	case "revoked":
-		by := []int{c04L, c04T}[revokeBy]
-		if err := r.node.ConnCode.RevokeMapping(r.M.id, r.ids[by], "client-"+c04identName[by]); err != nil {
-			w.Violationf("C04:harness", "RevokeMapping failed: %v", err)
-			return
-		}
-	case "expired":
-		pm, err := r.node.Cloud.GetPortMapping(r.M.id)
-		if err == nil {
+	change := func() error {
+		switch c04mstateName[mstate] {
+		case "revoked":
+			by := []int{c04L, c04T}[revokeBy]
+			return r.node.ConnCode.RevokeMapping(r.M.id, r.ids[by], "client-"+c04identName[by])
+		case "expired":
+			pm, err := r.node.Cloud.GetPortMapping(r.M.id)
+			if err != nil {
+				return err
+			}
 			cp := *pm
 			exp := time.Now().Add(3 * time.Second)
 			cp.ExpiresAt = &exp
-			err = r.node.Cloud.UpdatePortMapping(&cp)
+			if err := r.node.Cloud.UpdatePortMapping(&cp); err != nil {
+				return err
+			}
+			w.Sleep(4*time.Second + 50*time.Millisecond)
+		case "inactive":
+			return r.node.Cloud.UpdatePortMappingStatus(r.M.id, models.MappingStatusInactive)
+		case "deleted":
+			return r.node.Cloud.DeletePortMapping(r.M.id)
 		}
-		if err != nil {
-			w.Violationf("C04:harness", "setting ExpiresAt failed: %v", err)
+		return nil
+	}
+	if lateChange {
+		w.Probe("late-change")
+		// the listener opens one more tunnel of M (fresh id), as its client does for every visitor connection ...
+		rsp := c04spec{ident: c04L, ctype: "tunnel", cred: lateCred, overlap: true}
+		switch lateHow {
+		case "write-error":
+			rsp.wfault = 1 // the first write of M's record issued after the request is sent fails
+		case "slow-store":
+			rsp.stall, rsp.stallK = lateStall, lateStallK
+		}
+		raced := r.prep(rsp, "Lraced", true)
+		if raced == nil {
 			return
 		}
-		w.Sleep(4*time.Second + 50*time.Millisecond)
-	case "inactive":
-		if err := r.node.Cloud.UpdatePortMappingStatus(r.M.id, models.MappingStatusInactive); err != nil {
-			w.Violationf("C04:harness", "UpdatePortMappingStatus failed: %v", err)
-			return
+		var cerr error
+		t1 := w.Spawn("raced-open", func() { r.fire(raced) })
+		// ... and the change lands while that open is being processed
+		t2 := w.Spawn("late-change", func() {
+			w.Sleep(lateDelay)
+			cerr = change()
+			r.logf("change of M to %s issued %v after Lraced's request returned %v", c04mstateName[mstate], lateDelay, cerr)
+		})
+		t1.Wait()
+		t2.Wait()
+		if cerr != nil {
+			// the injected write failure hit the change itself: it is repeated now that nothing fails any more
+			w.Probe("late-change.repeated")
+			if err := change(); err != nil {
+				w.Probe("late-change.abandoned")
+				return
+			}
 		}
-	case "deleted":
-		if err := r.node.Cloud.DeletePortMapping(r.M.id); err != nil {
-			w.Violationf("C04:harness", "DeletePortMapping failed: %v", err)
-			return
-		}
+		// everything the raced open started synchronously is over (its ack or its refusal has been received)
+		w.Sleep(400 * time.Millisecond)
+	} else if err := change(); err != nil {
+		w.Violationf("C04:harness", "changing M to %s failed: %v", c04mstateName[mstate], err)
+		return
 	}
 	r.M.state = c04mstateName[mstate]
 	r.logf("mapping M is now %s", r.M.state)
+	if lateChange {
+		// canary: the change was acknowledged to its caller, nothing of the raced open is in flight any more
+		r.open(c04spec{ident: c04L, ctype: "tunnel", cred: lateCred}, "Lcanary", false)
+	}
 
 	// ---- phase 3: probes -----------------------------------------------------------
 	if burst {
@@ -368,6 +446,10 @@ func c04Run(w *simrt.World, tier string) {
 		var pcs []*c04conn
 		// connections are set up and authenticated one after the other; only the TunnelOpen requests overlap
 		if pc := r.prep(c04spec{ident: c04L, ctype: "tunnel", cred: 0}, "Lburst", true); pc != nil {
+			pcs = append(pcs, pc)
+		}
+		// the other tenant is busy too: S opens a tunnel of its own mapping
+		if pc := r.prep(c04spec{ident: c04S, ctype: "tunnel", cred: 4}, "Sburst", true); pc != nil {
 			pcs = append(pcs, pc)
 		}
 		for i, sp := range specs {
@@ -433,7 +515,72 @@ func c04Run(w *simrt.World, tier string) {
 			w.Violationf("C04:leak:cross-tunnel:squatted-tunnel-id", "bytes written into mapping M's tunnel by its parties are readable on connection %s of a client that is no party of M: %q\n%s", pc.name, c04clip(pc.raw), r.history())
 		}
 	}
+	r.checkCommands()
 	w.Sample(fmt.Sprintf("tunnel=%s mapping=%s secret=%v probes=%s", ts, r.M.state, r.M.secret != "", r.describeProbes()))
+}
+
+// checkCommands reads what the server sent on the clients' control connections. A TunnelOpenRequest command is
+// the server inviting a client to attach to a tunnel: it may only go to the target client of the mapping it
+// names, only for a tunnel that was opened for that mapping, and only with that mapping's secret.
+func (r *c04run) checkCommands() {
+	w := r.w
+	for i, cl := range r.ctl {
+		if cl == nil {
+			continue
+		}
+		for n := 0; n < 64; n++ {
+			p, ok := cl.Recv(20 * time.Millisecond)
+			if !ok {
+				break
+			}
+			if p.PacketType&0x3F != packet.JsonCommand || p.CommandPacket == nil || p.CommandPacket.CommandType != packet.TunnelOpenRequestCmd {
+				continue
+			}
+			var body struct {
+				TunnelID  string `json:"tunnel_id"`
+				MappingID string `json:"mapping_id"`
+				SecretKey string `json:"secret_key"`
+			}
+			if json.Unmarshal([]byte(p.CommandPacket.CommandBody), &body) != nil {
+				continue
+			}
+			w.Probe("command.tunnel-open-request")
+			m := r.maps[body.MappingID]
+			cls := ""
+			switch {
+			case m == nil || m.target != r.ids[i]:
+				cls = "addressee-not-target-of-named-mapping"
+			case !r.sent[body.TunnelID+"|"+body.MappingID]:
+				cls = "no-tunnel-was-granted-under-that-id-for-named-mapping"
+			case body.SecretKey != m.secret:
+				cls = "carries-another-mappings-secret"
+			}
+			if cls != "" {
+				w.Violationf("C04:invitation:"+cls, "the server told client %s (%d) to open its side of tunnel %q of mapping %q with secret %q; %s is target of %s only and the opens granted were %v\n%s",
+					c04identName[i], r.ids[i], body.TunnelID, body.MappingID, body.SecretKey, c04identName[i], r.targetOf(r.ids[i]), r.sentPairs(), r.history())
+				return
+			}
+		}
+	}
+}
+
+func (r *c04run) targetOf(id int64) string {
+	var out []string
+	for _, m := range []*c04map{r.M, r.M2} {
+		if m.target == id {
+			out = append(out, m.id)
+		}
+	}
+	return strings.Join(out, ",")
+}
+
+func (r *c04run) sentPairs() []string {
+	var out []string
+	for k := range r.sent {
+		out = append(out, k)
+	}
+	sort.Strings(out)
+	return out
 }
 
 func (r *c04run) describeProbes() string {
@@ -560,14 +707,18 @@ func (r *c04run) entitled(ident int, authed bool, q *packet.TunnelOpenRequest, h
 	if m.state != "active" {
 		// for a tunnel nobody holds yet, which validation path the request addresses is part of the class: the
 		// id path and the secret path are separate checks in any implementation
+		race := ""
+		if r.raceKind != "" && m == r.M {
+			race = "+change-raced:" + r.raceKind
+		}
 		if hasTunnel {
-			return c04no, "mapping-" + m.state
+			return c04no, "mapping-" + m.state + race
 		}
 		form := "by-id"
 		if q.SecretKey != "" {
 			form = "by-secret"
 		}
-		return c04no, "mapping-" + m.state + "/" + form
+		return c04no, "mapping-" + m.state + "/" + form + race
 	}
 	cid := r.ids[ident]
 	listener, target := cid == m.listen, cid == m.target
@@ -717,6 +868,13 @@ func (r *c04run) fire(pc *c04conn) {
 		r.stallDur, r.stallAt = sp.stall, ops+sp.stallK
 		r.faulty = true
 	}
+	if sp.wfault > 0 {
+		// only writes of M's own record count
+		r.st.Filter = func(op, key string) bool { return strings.Contains(key, r.M.id) }
+		_, wr := r.st.Ops()
+		r.st.CountWritesOnly, r.st.FailAt = true, wr+sp.wfault
+		r.faulty = true
+	}
 	payload, _ := json.Marshal(&pc.req)
 	if err := pc.cl.Send(packet.TunnelOpen, payload); err == nil {
 		pc.sent = true
@@ -731,23 +889,44 @@ func (r *c04run) fire(pc *c04conn) {
 		var ack packet.TunnelOpenAckResponse
 		if json.Unmarshal(p.Payload, &ack) == nil {
 			pc.acked, pc.ackOK, pc.ackErr = true, ack.Success, ack.Error
+			if ack.Success {
+				r.sent[pc.req.TunnelID+"|"+pc.req.MappingID] = true
+			}
 		}
 	}
 	if sp.fault > 0 {
 		r.st.FailAt = 0
 	}
-	if sp.stall > 0 {
-		r.stallAt = 0
+	if sp.wfault > 0 {
+		r.st.FailAt, r.st.CountWritesOnly, r.st.Filter = 0, false, nil
 	}
 	// let the dispatcher finish whatever it does after the ack
 	w.Sleep(30 * time.Millisecond)
+	if sp.stall > 0 {
+		// (the stall stays armed until here, so that it can also hit what the dispatcher does after the ack)
+		r.stallAt = 0
+	}
+	// a granted source open whose handler is still behind a stalled store operation registers its bridge late:
+	// later arrivals are classified by what is registered, so wait for it (bounded by the stall)
+	for i := 0; i < 300 && pc.ackOK && r.stalling > 0 && r.node.SM.BridgeForVerif(tid) == nil; i++ {
+		w.Sleep(100 * time.Millisecond)
+	}
 	r.noteBridge(tid)
 	held, hb := r.holds(pc.cl)
 	r.drain(pc, 200*time.Millisecond)
 	if held == "" {
 		held, hb = r.holds(pc.cl)
 	}
-	if hb != nil && hb != pre {
+	if hb != nil && hb != pre && strings.HasPrefix(held, "target") {
+		// a bridge that was not registered yet when the harness classified the arrival (its source's open was still
+		// being processed, e.g. behind a stalled store) was there when the dispatcher handled this request: the
+		// tunnel existed at arrival, and its mapping is the one that bridge was created for
+		pc.tstate = "bridge-waiting"
+		if hb.GetMappingID() != r.M.id {
+			pc.tstate = "foreign-bridge-waiting"
+		}
+		pc.verdict, pc.reason = r.entitled(sp.ident, pc.authed, &pc.req, true, hb.GetMappingID())
+	} else if hb != nil && hb != pre {
 		// the dispatcher did not find the tunnel the harness saw at arrival (e.g. the routing lookup failed) and
 		// made this connection the source of a NEW local tunnel: the tunnel it is attached to is that one, and
 		// its mapping is the one the bridge was created for
@@ -794,7 +973,10 @@ func (r *c04run) fire(pc *c04conn) {
 			w.Probe("refused." + pc.reason)
 		}
 	case c04yes:
-		if pc.acked && pc.ackOK {
+		if sp.overlap {
+			// the mapping's state changes while this request is being processed: granted and refused are both right
+			w.Probe("overlap.granted=" + fmt.Sprint(pc.acked && pc.ackOK))
+		} else if pc.acked && pc.ackOK {
 			w.Probe("granted.entitled")
 		} else if sp.fault == 0 && !r.faulty && pc.req.ResumeToken == "" && pc.tstate != "local-record-no-bridge" {
 			w.Violationf("C04:entitled-refused:"+pc.tstate, "an entitled request (fault-free run) was not acknowledged with success: acked=%v err=%q\n%s", pc.acked, pc.ackErr, r.history())
